@@ -410,18 +410,34 @@ func (s *Solver) solveAll(reports []*FuncReport, filter func(name string) bool, 
 		}(i, j)
 	}
 	wg.Wait()
-	// second pass: obligations that ended without a definite answer are re-run one at a time with a longer timeout,
-	// so that a loaded machine does not turn a slow proof into an alarm
-	saved := s.timeout
-	s.timeout = saved * 4
-	for i, j := range jobs {
+	// second pass: obligations that ended without a definite answer are re-run with a longer timeout and little
+	// parallelism, so that a loaded machine does not turn a slow proof into an alarm (skipped when many failed)
+	var again []int
+	for i := range jobs {
 		r := results[i]
 		if r != nil && r.Status == "failed" && r.Kind != "vacuity" && (r.Answer == "timeout" || r.Answer == "unknown") {
-			r2 := s.solve(j.d, j.o)
-			r2.TimeS += r.TimeS
-			r2.Info = strings.TrimSpace(r2.Info + " (second pass)")
-			results[i] = r2
+			again = append(again, i)
 		}
+	}
+	saved := s.timeout
+	if len(again) > 0 && len(again) <= 6 {
+		s.timeout = saved * 2
+		var wg2 sync.WaitGroup
+		sem2 := make(chan struct{}, 3)
+		for _, i := range again {
+			wg2.Add(1)
+			sem2 <- struct{}{}
+			go func(i int) {
+				defer wg2.Done()
+				defer func() { <-sem2 }()
+				r := results[i]
+				r2 := s.solve(jobs[i].d, jobs[i].o)
+				r2.TimeS += r.TimeS
+				r2.Info = strings.TrimSpace(r2.Info + " (second pass)")
+				results[i] = r2
+			}(i)
+		}
+		wg2.Wait()
 	}
 	s.timeout = saved
 	return results
